@@ -356,3 +356,162 @@ func vSortedKeys(m map[string]bool) []string {
 	sort.Strings(ks)
 	return ks
 }
+
+// ---- histories (shared by the FRR-mode and the frr-k8s-mode history harnesses) ----
+
+type vHistOp struct {
+	Kind string `json:"kind"` // new set setbad (a Set the manager must reject) close resync (regeneration from an unrelated trigger)
+	Why  string `json:"why,omitempty"`
+	Sess int    `json:"sess"`
+	Advs []vAdv `json:"advs,omitempty"`
+}
+
+type vHist struct {
+	Base []vSess   `json:"base"` // session parameters (Advs ignored)
+	Ops  []vHistOp `json:"ops"`
+}
+
+func vCopyAdvs(a []vAdv) []vAdv {
+	out := make([]vAdv, len(a))
+	for i, x := range a {
+		out[i] = vAdv{Prefix: x.Prefix, LP: x.LP, Comms: append([]string{}, x.Comms...)}
+	}
+	return out
+}
+
+// a variation of an advertisement list that keeps one local preference per prefix
+func vMutateAdvs(r *rand.Rand, cur []vAdv) []vAdv {
+	out := vCopyAdvs(cur)
+	dupIdx := func() []int { // indexes of entries whose prefix occurs again LATER (non-last duplicates)
+		var idx []int
+		for i := range out {
+			for j := i + 1; j < len(out); j++ {
+				if out[j].Prefix == out[i].Prefix {
+					idx = append(idx, i)
+					break
+				}
+			}
+		}
+		return idx
+	}
+	newComms := func() []string {
+		var cs []string
+		for k, n := 0, 1+r.Intn(2); k < n; k++ {
+			c := vComms[r.Intn(len(vComms))]
+			if r.Intn(3) == 0 {
+				c = vLarge[r.Intn(len(vLarge))]
+			}
+			dup := false
+			for _, x := range cs {
+				dup = dup || x == c
+			}
+			if !dup {
+				cs = append(cs, c)
+			}
+		}
+		return cs
+	}
+	switch k := r.Intn(8); {
+	case k <= 1 && len(dupIdx()) > 0: // remove a non-last duplicate
+		d := dupIdx()
+		i := d[r.Intn(len(d))]
+		out = append(out[:i], out[i+1:]...)
+	case k <= 3 && len(dupIdx()) > 0: // change the communities of a non-last duplicate
+		d := dupIdx()
+		out[d[r.Intn(len(d))]].Comms = newComms()
+	case k <= 5 && len(out) > 0: // add a duplicate of an existing prefix IN FRONT, with other communities
+		x := out[r.Intn(len(out))]
+		out = append([]vAdv{{Prefix: x.Prefix, LP: x.LP, Comms: newComms()}}, out...)
+	case k == 6 && len(out) > 0: // drop any entry
+		i := r.Intn(len(out))
+		out = append(out[:i], out[i+1:]...)
+	default:
+		out = vGenAdvs(r, false)
+	}
+	return out
+}
+
+// vBadAdvs: the current list with one advertisement the session manager must refuse placed somewhere in it
+func vBadAdvs(r *rand.Rand, cur []vAdv, lpConflictIsBad bool) ([]vAdv, string) {
+	out := vCopyAdvs(cur)
+	var bad vAdv
+	why := "more than 63 communities"
+	if lpConflictIsBad && len(out) > 0 && r.Intn(3) == 0 {
+		x := out[r.Intn(len(out))]
+		bad = vAdv{Prefix: x.Prefix, LP: x.LP + 50, Comms: []string{}}
+		why = "same prefix with another local preference"
+	} else {
+		bad = vAdv{Prefix: vPfx4[r.Intn(len(vPfx4))], Comms: []string{}}
+		for _, a := range out {
+			if a.Prefix == bad.Prefix {
+				bad.LP = a.LP
+			}
+		}
+		for k := 0; k < 64; k++ {
+			bad.Comms = append(bad.Comms, fmt.Sprintf("65000:%d", 1000+k))
+		}
+	}
+	// a few new valid entries around it, so that a partially applied request is visible
+	extra := vGenAdvs(r, false)
+	for i := range extra {
+		for _, a := range out {
+			if a.Prefix == extra[i].Prefix {
+				extra[i].LP = a.LP
+			}
+		}
+		if extra[i].Prefix == bad.Prefix && why[0] == 'm' {
+			extra[i].LP = bad.LP
+		}
+	}
+	var res []vAdv
+	if r.Intn(2) == 0 {
+		pos := r.Intn(len(out) + 1)
+		res = append(res, out[:pos]...)
+		res = append(res, bad)
+		res = append(res, out[pos:]...)
+	} else {
+		res = append(res, extra...)
+		res = append(res, bad)
+		res = append(res, out...)
+	}
+	return res, why
+}
+
+func vGenHist(r *rand.Rand, lpConflictIsBad bool) vHist {
+	h := vHist{Base: vGenSessions(r, false)}
+	cur := make([][]vAdv, len(h.Base))
+	alive := make([]bool, len(h.Base))
+	for i := range h.Base {
+		h.Ops = append(h.Ops, vHistOp{Kind: "new", Sess: i})
+		alive[i] = true
+		if len(h.Base[i].Advs) > 0 || r.Intn(2) == 0 {
+			h.Ops = append(h.Ops, vHistOp{Kind: "set", Sess: i, Advs: vCopyAdvs(h.Base[i].Advs)})
+			cur[i] = vCopyAdvs(h.Base[i].Advs)
+		}
+	}
+	for k, n := 0, 2+r.Intn(5); k < n; k++ {
+		i := r.Intn(len(h.Base))
+		switch {
+		case !alive[i]:
+			h.Ops = append(h.Ops, vHistOp{Kind: "new", Sess: i})
+			alive[i], cur[i] = true, nil
+		case r.Intn(8) == 0 && len(h.Base) > 1:
+			h.Ops = append(h.Ops, vHistOp{Kind: "close", Sess: i})
+			alive[i], cur[i] = false, nil
+		case r.Intn(4) == 0:
+			// a request the manager must refuse: the previous set stays in force; then an unrelated regeneration
+			bad, why := vBadAdvs(r, cur[i], lpConflictIsBad)
+			h.Ops = append(h.Ops, vHistOp{Kind: "setbad", Sess: i, Advs: bad, Why: why})
+			if r.Intn(3) != 0 {
+				h.Ops = append(h.Ops, vHistOp{Kind: "resync", Sess: i})
+			}
+		case r.Intn(10) == 0:
+			h.Ops = append(h.Ops, vHistOp{Kind: "resync", Sess: i})
+		default:
+			cur[i] = vMutateAdvs(r, cur[i])
+			h.Ops = append(h.Ops, vHistOp{Kind: "set", Sess: i, Advs: vCopyAdvs(cur[i])})
+		}
+	}
+	return h
+}
+
